@@ -55,15 +55,52 @@ def _is_empty_dict(n):
             or (isinstance(n, ast.Call) and _is_name(n.func, 'dict') and not n.args and not n.keywords))
 
 
+def _none_test(t, ident):
+    """'is_none' / 'is_not_none' when ``t`` tests the name ``ident`` against None by identity
+    (either operand order, any number of enclosing ``not``), 'truthy' / 'falsy' for the bare
+    name under ``not``s, else None.  `is` is symmetric and cannot be overloaded, `not` of a
+    bool is plain negation: these spellings denote the same test."""
+    neg = False
+    while isinstance(t, ast.UnaryOp) and isinstance(t.op, ast.Not):
+        neg, t = not neg, t.operand
+    if _is_name(t, ident):
+        return 'falsy' if neg else 'truthy'
+    if isinstance(t, ast.Compare) and len(t.ops) == 1 and isinstance(t.ops[0], (ast.Is, ast.IsNot)):
+        a, b = t.left, t.comparators[0]
+        if (_is_name(a, ident) and _is_none(b)) or (_is_none(a) and _is_name(b, ident)):
+            is_none = isinstance(t.ops[0], ast.Is) != neg
+            return 'is_none' if is_none else 'is_not_none'
+    return None
+
+
+def _store_mode(val):
+    """'IfNotNone' | 'IfTruthy' | None for the expression that selects the store."""
+    if isinstance(val, ast.IfExp):
+        t = _none_test(val.test, 'cache')
+        keep_then = _is_name(val.body, 'cache') and _is_empty_dict(val.orelse)     # cache if T else {}
+        keep_else = _is_empty_dict(val.body) and _is_name(val.orelse, 'cache')     # {} if T else cache
+        if (t == 'is_not_none' and keep_then) or (t == 'is_none' and keep_else):
+            return 'IfNotNone'
+        if (t == 'truthy' and keep_then) or (t == 'falsy' and keep_else):
+            return 'IfTruthy'
+        return None
+    if isinstance(val, ast.BoolOp) and isinstance(val.op, ast.Or) and len(val.values) == 2 \
+            and _is_name(val.values[0], 'cache') and _is_empty_dict(val.values[1]):
+        return 'IfTruthy'
+    return None
+
+
 def cache_init(fn):
     """(store variable name, 'IfNotNone' | 'IfTruthy') from the one statement of
     the decorator body (outside the wrapper) that reads the ``cache`` parameter
-    into a variable."""
+    into a variable.  That variable must be bound exactly once in the whole
+    function and the parameter itself must never be re-bound (so that the
+    translated statement alone decides which mapping is the store)."""
     kwonly = [a.arg for a in fn.args.kwonlyargs]
     if 'cache' not in kwonly:
         raise Unsupported('no keyword-only parameter "cache"')
     found = []
-    for st in fn.body:
+    for pos, st in enumerate(fn.body):
         if isinstance(st, (ast.FunctionDef, ast.AsyncFunctionDef, ast.If, ast.Return, ast.Expr, ast.Delete)):
             # the `func is None` branch only re-binds (checked by C15); docstring; del
             continue
@@ -74,25 +111,29 @@ def cache_init(fn):
         else:
             raise Unsupported(f'statement shape {type(st).__name__} at line {st.lineno}')
         if any(_is_name(n, 'cache') for n in ast.walk(val)):
-            found.append((tgt, val))
+            found.append((pos, tgt, val))
     if len(found) != 1:
         raise Unsupported(f'{len(found)} statements read the cache parameter')
-    tgt, val = found[0]
+    pos, tgt, val = found[0]
     if not _is_name(tgt):
         raise Unsupported('store target is not a plain name')
-    mode = None
-    if isinstance(val, ast.IfExp) and isinstance(val.test, ast.Compare) and len(val.test.ops) == 1 \
-            and _is_name(val.test.left, 'cache') and _is_none(val.test.comparators[0]):
-        op = val.test.ops[0]
-        if isinstance(op, ast.IsNot) and _is_name(val.body, 'cache') and _is_empty_dict(val.orelse):
-            mode = 'IfNotNone'
-        elif isinstance(op, ast.Is) and _is_empty_dict(val.body) and _is_name(val.orelse, 'cache'):
-            mode = 'IfNotNone'
-    elif isinstance(val, ast.BoolOp) and isinstance(val.op, ast.Or) and len(val.values) == 2 \
-            and _is_name(val.values[0], 'cache') and _is_empty_dict(val.values[1]):
-        mode = 'IfTruthy'
+    mode = _store_mode(val)
     if mode is None:
         raise Unsupported(f'store selection expression at line {val.lineno}: {ast.dump(val)[:200]}')
+    # nothing else may decide the store: the parameter is never re-bound (a `del cache` after the
+    # statement is fine), the store variable is bound by that statement only, no nonlocal/global
+    later_dels = {id(n) for st in fn.body[pos + 1:] if isinstance(st, ast.Delete) for n in st.targets}
+    for n in ast.walk(fn):
+        if isinstance(n, (ast.Nonlocal, ast.Global)):
+            raise Unsupported(f'nonlocal/global at line {n.lineno}')
+        if isinstance(n, ast.Name) and isinstance(n.ctx, (ast.Store, ast.Del)):
+            if n.id == 'cache' and not (isinstance(n.ctx, ast.Del) and id(n) in later_dels):
+                raise Unsupported(f'the cache parameter is re-bound at line {n.lineno}')
+            if n.id == tgt.id and n is not tgt:
+                raise Unsupported(f'the store variable {tgt.id} is re-bound at line {n.lineno}')
+        if isinstance(n, ast.arg) and n is not fn.args.kwonlyargs[kwonly.index('cache')] \
+                and n.arg in ('cache', tgt.id):
+            raise Unsupported(f'{n.arg} is shadowed by a parameter at line {n.lineno}')
     return tgt.id, mode
 
 
@@ -132,8 +173,14 @@ def key_expr(fn, store_name):
         for t in tgts:
             if any(_is_name(x, key_name) and isinstance(x.ctx, (ast.Store, ast.Del)) for x in ast.walk(t)):
                 assigns.append(n)
-    if len(assigns) != 1 or not isinstance(assigns[0], ast.Assign) or len(assigns[0].targets) != 1 \
-            or not _is_name(assigns[0].targets[0], key_name):
+    # exactly one binding, `key = <expr>` or `key: <annotation> = <expr>` (the annotation is not evaluated
+    # for a local variable and does not change the value)
+    b = assigns[0] if len(assigns) == 1 else None
+    if isinstance(b, ast.Assign) and len(b.targets) == 1 and _is_name(b.targets[0], key_name):
+        pass
+    elif isinstance(b, ast.AnnAssign) and b.value is not None and _is_name(b.target, key_name):
+        pass
+    else:
         raise Unsupported(f'{len(assigns)} bindings of the key variable {key_name}')
     # the arguments must not be re-bound either
     for n in ast.walk(w):
@@ -164,11 +211,11 @@ def key_expr(fn, store_name):
     return [comp(val)]
 
 
-def facts():
+def facts(src=None):
     """Returns dict(key_expr=[...] | None, cache_init=str | None, errors=[...])."""
     out = dict(key_expr=None, cache_init=None, store=None, errors=[])
     try:
-        tree = ast.parse(_source())
+        tree = ast.parse(_source() if src is None else src)
         fn = _public_def(tree, FUNC)
     except (Unsupported, SyntaxError, OSError) as e:
         out['errors'].append(f'source: {e}')
@@ -209,11 +256,123 @@ def render(f):
     return '\n'.join(L) + '\n'
 
 
+# ---- self-test: spellings of the two statements that must / must not translate -------------
+# A maintainer may respell either statement without changing what it denotes; the translator accepts a
+# spelling only when, after the normalisations documented above (parentheses and line breaks vanish in
+# the AST; an annotation on the assignment; `is`/`is not` against None with either operand order or
+# under `not`; `dict()` for `{}`), it is structurally one of the whitelisted trees.  Everything else is
+# rejected (fail closed), including spellings that happen to be equivalent.
+_TEMPLATE = '''
+def threadsafe_async_cache(func=None, *, cache=None):
+    """doc"""
+    if func is None:
+        return partial(threadsafe_async_cache, cache=cache)
+    {STORE}
+    _func = func
+    del cache, func
+    events = {{}}
+    async def _wrapper(*args, **kwargs):
+        {KEY}
+        try:
+            return _cache[key]
+        except KeyError:
+            pass
+        result = await _func(*args, **kwargs)
+        _cache[key] = result
+        return result
+    return _wrapper
+'''
+_S0 = '_cache: _CacheMap = cache if cache is not None else {}'
+_K0 = 'key = args, frozenset(kwargs.items())'
+_SPEC = [('WTuple', 'IArgs'), ('WFrozenset', 'IKwItems')]
+_REV = [('WFrozenset', 'IKwItems'), ('WTuple', 'IArgs')]
+
+# key statement -> expected translation (None = must be rejected)
+KEY_SPELLINGS = [
+    (_K0, _SPEC),
+    ('key = (args, frozenset(kwargs.items()))', _SPEC),
+    ('key: Any = args, frozenset(kwargs.items())', _SPEC),
+    ('key: Tuple[Any, ...] = (args, frozenset(kwargs.items()))', _SPEC),
+    ('key = (\n    args,\n    frozenset(kwargs.items()),\n)', _SPEC),
+    ('key = (args), (frozenset((kwargs).items(), ))', _SPEC),
+    ('key = tuple(args), frozenset(kwargs.items())', _SPEC),
+    ('key = frozenset(kwargs.items()), args', _REV),                    # translated; still `good`
+    ('key = args', [('WTuple', 'IArgs')]),                              # translated; NOT good -> proofs fail
+    ('key = args, tuple(kwargs.items())', [('WTuple', 'IArgs'), ('WTuple', 'IKwItems')]),   # translated; NOT good
+    ('key = args, frozenset(kwargs)', None),
+    ('key = args, frozenset(kwargs.values())', None),
+    ('key = args + tuple(sorted(kwargs.items()))', None),
+    ('key = (*args, frozenset(kwargs.items()))', None),
+    ('key = str(args), frozenset(kwargs.items())', None),
+    ('key = [args, frozenset(kwargs.items())]', None),
+    ('key = args[:1], frozenset(kwargs.items())', None),
+    ('key = args, frozenset(list(kwargs.items()))', None),             # equivalent, not whitelisted
+    ('items = kwargs.items()\nkey = args, frozenset(items)', None),    # equivalent, not whitelisted
+    ('key = args, frozenset(kwargs.items())\nkey = hash(key)', None),
+    ('args = args[:1]\nkey = args, frozenset(kwargs.items())', None),
+    ('key = args, frozenset(kwargs.items()) if kwargs else None', None),
+]
+# store statement -> expected mode (None = must be rejected)
+STORE_SPELLINGS = [
+    (_S0, 'IfNotNone'),
+    ('_cache = cache if cache is not None else {}', 'IfNotNone'),
+    ('_cache = (cache if cache is not None else {})', 'IfNotNone'),
+    ('_cache = {} if cache is None else cache', 'IfNotNone'),
+    ('_cache = dict() if cache is None else cache', 'IfNotNone'),
+    ('_cache = cache if cache is not None else dict()', 'IfNotNone'),
+    ('_cache = cache if not cache is None else {}', 'IfNotNone'),
+    ('_cache = cache if None is not cache else {}', 'IfNotNone'),
+    ('_cache = {} if None is cache else cache', 'IfNotNone'),
+    ('_cache = {} if not (cache is not None) else cache', 'IfNotNone'),
+    ('_cache = cache or {}', 'IfTruthy'),                               # translated; the proofs then fail
+    ('_cache = cache if cache else {}', 'IfTruthy'),
+    ('_cache = {} if not cache else cache', 'IfTruthy'),
+    ('_cache = cache if cache != None else {}', None),
+    ('_cache = cache if cache is None else {}', None),
+    ('_cache = {} if cache is not None else cache', None),
+    ('_cache = {}', None),
+    ('_cache = cache if cache is not None else {1: 2}', None),
+    ('_cache = cache if cache is not None else OrderedDict()', None),
+    ('_cache = dict(cache) if cache is not None else {}', None),
+    ('_cache = cache.copy() if cache is not None else {}', None),
+    ('_cache = cache if len(cache) else {}', None),
+    ('if cache is None:\n    cache = {}\n_cache = cache', None),        # equivalent, not whitelisted
+    ('if not cache:\n    cache = {}\n_cache = cache if cache is not None else {}', None),
+    ('_cache = cache if cache is not None else {}\n_cache = {}', None),
+    ('(cache := cache or {})\n_cache = cache if cache is not None else {}', None),
+]
+
+
+def _spell(store, key):
+    src = _TEMPLATE.format(STORE=store.replace('\n', '\n    '), KEY=key.replace('\n', '\n        '))
+    f = facts(src)
+    return f['cache_init'], f['key_expr']
+
+
+def selftest():
+    """List of failures (empty = the whitelist behaves as documented).  ~50 tiny parses, a few ms."""
+    bad = []
+    for k, want in KEY_SPELLINGS:
+        got = _spell(_S0, k)[1]
+        if got != want:
+            bad.append(f'key spelling {k!r}: {got} instead of {want}')
+    for st, want in STORE_SPELLINGS:
+        got = _spell(st, _K0)[0]
+        if got != want:
+            bad.append(f'store spelling {st!r}: {got} instead of {want}')
+    return bad
+
+
 def translate():
     f = facts()
+    bad = selftest()
+    if bad:     # the translator itself is broken: nothing it says can be trusted -> fail closed
+        f = dict(key_expr=None, cache_init=None, store=None,
+                 errors=f['errors'] + ['translator self-test: ' + b for b in bad[:5]])
     C.write_if_changed(OUT, render(f))
     return f
 
 
 if __name__ == '__main__':
     print(render(facts()))
+    print('self-test failures:', selftest())
